@@ -197,6 +197,7 @@ var g1Exceptions = map[string]string{
 }
 
 func runC03(c *Ctx, r *Run) {
+	checkFailureReported(c, r, "ERR-3")
 	r.Rule("OB-G1", "every received proof is verified: for each consumed content field whose type has a Verify method, the consuming round method calls Verify on that field, the false result rejects, and the check covers every accepting exit")
 	r.Rule("OB-G2", "every received commitment is opened: each hash.Commitment content field is stored and later is the commitment argument of a Decommit whose false result rejects")
 	r.Rule("OB-G3", "every content field whose type declares Validate() error is validated before use (explicitly, or by Decommit for commitments/decommitments)")
